@@ -213,7 +213,7 @@ pub fn envelope_setter(r: &mut Rng, ns: usize, light: bool) -> Setter {
     match r.below(10) {
         0 => Setter::SamplingFrequency(if light { *r.pick(&[8000, 8000, 11025, 16000, 22050, 48000]) } else { *r.pick(&[8000, 16000, 22050, 44100, 48000, 96000]) }),
         1 => Setter::Fperiod(if light { *r.pick(&[1, 2, 3, 4, 4, 5, 6, 8, 8, 10, 12, 16]) } else { *r.pick(&[1, 2, 3, 5, 8, 16, 40, 80]) }),
-        2 => Setter::Volume(r.uniform(-20.0, 20.0)),
+        2 => Setter::Volume(if r.chance(0.03) { *r.pick(&[f64::NEG_INFINITY, -7000.0, -400.0, 0.0]) } else { r.uniform(-20.0, 20.0) }),
         3 => Setter::Msd(r.below(ns.max(1)), *r.pick(&[0.0, 0.3, 0.5, 0.7, 0.9, 1.0])),
         4 => Setter::GvWeight(r.below(ns.max(1)), *r.pick(&[0.0, 0.5, 1.0, 1.5, 2.0])),
         5 => Setter::Align(r.chance(0.5)),
@@ -338,6 +338,7 @@ pub fn swarm(prop: Prop, r: &mut Rng, pools: &Pools, corpus_len: usize) -> Swarm
             w.set = 60;
             w.clone = if profile == "clone_heavy" { 15 } else { 3 };
             w.clone_from = if profile == "clone_heavy" { 8 } else { 2 };
+            w.reload = 2;
             w.dropengine = 1;
             w.setw_valid = 2;
             nops = r.range(10, 60);
@@ -412,9 +413,16 @@ pub fn swarm(prop: Prop, r: &mut Rng, pools: &Pools, corpus_len: usize) -> Swarm
             prelude.push(TOp { task: 0, op: Op::Drain { g: 0, max: *r.pick(&[1023, 1024, 1100, 2500]) } });
             prelude.push(TOp { task: 0, op: Op::Query { g: 0 } });
             prelude.push(TOp { task: 1, op: Op::Finish { g: 0 } });
+            // a second and third generator of the same engine, started while the first is far ahead,
+            // then pulled alternately
             prelude.push(TOp { task: 0, op: Op::NewGen { e: 0, g: 1, utt: long.clone() } });
-            prelude.push(TOp { task: 0, op: Op::Step { g: 1, extra: 0 } });
+            prelude.push(TOp { task: 0, op: Op::NewGen { e: 0, g: 2, utt: long.clone() } });
+            prelude.push(TOp { task: 0, op: Op::Drain { g: 1, max: *r.pick(&[40, 200, 700]) } });
+            for k in 0..12 {
+                prelude.push(TOp { task: (k % 3) as u8, op: Op::Drain { g: 1 + (k % 2), max: *r.pick(&[1, 3, 10, 60]) } });
+            }
             prelude.push(TOp { task: 0, op: Op::Finish { g: 1 } });
+            prelude.push(TOp { task: 1, op: Op::Finish { g: 2 } });
         } else {
             prelude.push(TOp { task: 0, op: Op::Synth { e: 0, utt: long.clone(), form: Form::Slice } });
             prelude.push(TOp { task: 1, op: Op::Synth { e: 0, utt: long.clone(), form: Form::Slice } });
@@ -586,7 +594,7 @@ impl Gen {
                 // VoiceSet::new over 0..3 voices, possibly with one metadata field changed in one voice
                 let mode = self.r.below(10);
                 if mode == 0 {
-                    Op::VsNew { voices: vec![], mutate: None }
+                    Op::VsNew { voices: vec![], mutate: None, mutate2: None }
                 } else {
                     let mi = self.r.below(self.sw.metas.len());
                     let meta = self.sw.metas[mi].clone();
@@ -612,7 +620,25 @@ impl Gen {
                     } else {
                         None
                     };
-                    Op::VsNew { voices, mutate }
+                    // sometimes a second field, in another metadata block, of the same or another voice
+                    let mutate2 = if mutate.is_some() && self.r.chance(0.25) {
+                        let pos = self.r.below(n);
+                        let si = self.r.below(meta.nstreams);
+                        let f = match self.r.below(8) {
+                            0 => MetaField::SamplingRate,
+                            1 => MetaField::NumStates,
+                            2 => MetaField::VectorLength(si),
+                            3 => MetaField::NumWindows(si),
+                            4 => MetaField::IsMsd(si),
+                            5 => MetaField::UseGv(si),
+                            6 => MetaField::Option(si),
+                            _ => MetaField::FramePeriod,
+                        };
+                        Some((pos, f, self.r.below(5) as u8))
+                    } else {
+                        None
+                    };
+                    Op::VsNew { voices, mutate, mutate2 }
                 }
             }
             8 => {
@@ -641,6 +667,13 @@ impl Gen {
             15 => {
                 // clone_from into an existing engine if there is one, else a fresh slot
                 let dst = if occupied_e.len() >= 2 && self.r.chance(0.8) { *self.r.pick(&occupied_e) } else { self.r.below(MAX_ENGINES) };
+                if occupied_e.len() >= 2 && self.r.chance(0.4) {
+                    // condition-only copy between two engines over the same voice set (a clone of e, if any)
+                    let same: Vec<usize> = occupied_e.iter().copied().filter(|x| *x != e && sim.engines[*x].as_ref().unwrap().vs_id == sim.engines[e].as_ref().unwrap().vs_id).collect();
+                    if !same.is_empty() {
+                        return TOp { task, op: Op::CloneCond { src: e, dst: *self.r.pick(&same) } };
+                    }
+                }
                 Op::CloneFrom { src: e, dst }
             }
             16 => Op::Reload { e, voices: self.voices_for_load() },
